@@ -14,7 +14,7 @@ for a in "${areas[@]}"; do
   n=B${k}${tag}
   bash /verif/eav/mkwt.sh C01 $n || exit 1
   rm -f /tmp/wt_$n/_seed/*
-  sed "s#@@e#${n}#g; s#@@FILES#${a}#g" /verif/eav/benign_prompt.txt > /tmp/wt_$n/_seed/TASK.txt
+  sed "s#@@e#${n}#g; s#@@FILES#${a}#g" ${BENIGN_PROMPT:-/verif/eav/benign_prompt.txt} > /tmp/wt_$n/_seed/TASK.txt
   k=$((k+1))
 done
 ls -d /tmp/wt_B*${tag}
